@@ -4,6 +4,7 @@ import RossModel.Lemmas.Layout
 import RossModel.Lemmas.Applies
 import RossModel.Lemmas.Accept
 import RossModel.Lemmas.Event
+import RossModel.Lemmas.SourceDecoders
 /-!
 # C05 — Event decoders never crash on untrusted packets; accept only exact encodings
 
@@ -69,5 +70,24 @@ theorem C05_src_guards : (SrcTie.sizeGuardsOk && SrcTie.bcmTagsOk && SrcTie.rela
 
 /-- the model's `decode` reads every field of every kind from the offset and width `try_from_packet` reads it from -/
 theorem C05_src_reads : SrcTie.decoderLayoutOk = true := by decide
+
+/-! ### tie to the source text (control flow translated from /repo by `bin/extract` on every run) -/
+/-- **C05 about the decoders as they read now.** `Src.decodeK k` is `try_from_packet` of kind `k` translated statement by
+statement from `src/event/*.rs` on every run (fourteen kinds: guard chain in source order, every slice, index and
+`try_into().unwrap()` as a primitive that panics exactly when the Rust expression does; the data and message decoders are
+outside the translated subset and are the model's). For **every** packet: the translated decoder does not panic, and it
+accepts exactly when the model's `decode` accepts, with the same value. -/
+theorem C05_src_decoders_total (k : Kind) (p : Packet) :
+    Src.decodeK k p ≠ .panic ∧ ∀ e, Src.decodeK k p = .ok e ↔ decode k p = .ok e :=
+  ⟨(Ross.src_decodeK_agrees k p).2, (Ross.src_decodeK_agrees k p).1⟩
+
+/-- hence what a translated decoder accepts is a non-error packet carrying its kind's code with exactly the payload length
+of the published layout, and the accepted value re-encodes to a packet that decodes to itself -/
+theorem C05_src_accepts_exact (pad : Pad) (k : Kind) (p : Packet) (e : Event) (h : Src.decodeK k p = .ok e) :
+    p.isError = false ∧ p.code? = some k.code ∧ p.data.length = layoutLen e ∧ Src.decodeK k (encode pad e) = .ok e := by
+  have hm := ((Ross.src_decodeK_agrees k p).1 e).1 h
+  have hh := Ross.decode_ok_head k p e hm
+  exact ⟨hh.1, hh.2.1, Ross.decode_ok_length k p e hm,
+    ((Ross.src_decodeK_agrees k (encode pad e)).1 e).2 (Ross.decode_reencode pad k p e hm)⟩
 
 end Ross.Props
